@@ -52,6 +52,7 @@ type world struct {
 
 	mu     sync.Mutex
 	cur    int
+	flip   int               // >=0: switch to this revision right after the next HEAD of the index has been answered
 	stalls map[string]*stall // URL path suffix -> stall
 	reqs   []string
 	srv    *httptest.Server
@@ -108,7 +109,7 @@ func newWorld(nrev int) (*world, error) {
 	if err != nil {
 		return nil, err
 	}
-	w := &world{root: root, stalls: map[string]*stall{}}
+	w := &world{root: root, stalls: map[string]*stall{}, flip: -1}
 	w.self, err = os.Executable()
 	if err != nil {
 		return nil, err
@@ -155,7 +156,8 @@ func (w *world) close() {
 	os.RemoveAll(w.root)
 }
 
-func (w *world) setRev(r int) { w.mu.Lock(); w.cur = r; w.mu.Unlock() }
+func (w *world) setRev(r int)        { w.mu.Lock(); w.cur = r; w.mu.Unlock() }
+func (w *world) flipAfterHead(r int) { w.mu.Lock(); w.flip = r; w.mu.Unlock() }
 
 func (w *world) repoURL() string { return w.srv.URL + "/repo" }
 
@@ -176,6 +178,9 @@ func (w *world) serve(rw http.ResponseWriter, req *http.Request) {
 	w.mu.Lock()
 	rev := w.revs[w.cur]
 	w.reqs = append(w.reqs, req.Method+" "+req.URL.Path)
+	if req.Method == http.MethodHead && w.flip >= 0 && strings.HasSuffix(req.URL.Path, "/APKINDEX.tar.gz") {
+		w.cur, w.flip = w.flip, -1 // this HEAD is still answered from the old revision
+	}
 	var st *stall
 	if req.Method == http.MethodGet {
 		for suf, s := range w.stalls {
@@ -229,7 +234,7 @@ func (w *world) requests() []string {
 // ---- running one build process -------------------------------------------
 
 type runSpec struct {
-	Cache   string   // "" = no cache
+	Cache   string // "" = no cache
 	Offline bool
 	Pkgs    []string
 	CrashAt string // VERIF_CRASH_AT
